@@ -495,6 +495,8 @@ class C06(core.Prop):
             out.append({'statement': stmt, 'tables': tables, 'data': self._data(rng, tables), 'exact': exact})
         for _ in range(8 if tier == 'quick' else 60):
             out.append(self._history(rng))
+        for _ in range(4 if tier == 'quick' else 30):
+            out.append(self._history_monolite(rng))
         return out
 
     def _history(self, rng):
@@ -523,6 +525,30 @@ class C06(core.Prop):
         ops.append({'op': 'read', 'conn': rng.choice(conns), 'stmt': 0})
         return {'history': ops, 'statements': stmts}
 
+    def _history_monolite(self, rng):
+        """Read histories through inline-backed monolite feeds (process-global lazy backend): statements over table B."""
+        bx = lambda c: ['col', 'B', c]
+        shaped = lambda k: ['query', B, {'sel': [bx('id'), bx('z')], 'pre': ['bin', '>=', bx('id'), ['lit', k]], 'grp': [], 'post': None, 'ord': [], 'rows': None}]
+        k1, k2 = rng.sample([0, 1, 2], 2)
+        stmts = [shaped(k1), shaped(k2),
+                 ['query', B, {'sel': [bx('t'), ['alias', ['agg', 'sum', bx('x')], 'sx']], 'pre': None, 'grp': [bx('t')], 'post': None, 'ord': [], 'rows': None}]]
+
+        def data():
+            return {'B': [{'id': i, 'x': rng.randint(-2, 4), 'z': rng.randint(-2, 4), 't': rng.choice(['a', 'b', 'zz'])} for i in range(rng.randint(1, 5))]}
+
+        conns = [0, 1] if rng.random() < 0.7 else [0]
+        ops = [{'op': 'mutate', 'conn': c, 'data': data()} for c in conns]
+        for _ in range(rng.randint(3, 6)):
+            r = rng.random()
+            if r < 0.6:
+                ops.append({'op': 'read', 'conn': rng.choice(conns), 'stmt': rng.randrange(len(stmts))})
+            elif r < 0.85:
+                ops.append({'op': 'mutate', 'conn': rng.choice(conns), 'data': data()})
+            else:
+                ops.append({'op': 'restart'})
+        ops.append({'op': 'read', 'conn': rng.choice(conns), 'stmt': 0})
+        return {'history': ops, 'statements': stmts, 'kind': 'monolite'}
+
     def _run_history(self, case):
         import json
         import subprocess
@@ -539,19 +565,25 @@ class C06(core.Prop):
                 else:
                     current.append(op)
             segments.append(current)
-            results = []
+            results, content = [], {}
             for k, seg in enumerate(segments):
                 if k:
                     results.append({'restarted': True})
                 if not seg:
                     continue
-                (tmp / 'in.json').write_text(json.dumps({'dbs': dbs, 'statements': case['statements'], 'ops': seg}))
+                (tmp / 'in.json').write_text(json.dumps({'dbs': dbs, 'statements': case['statements'], 'ops': seg, 'kind': case.get('kind'),
+                                                         'content': content}))
                 env = core.impl_env({'FORML_HOME': str(tmp / 'home'), 'HOME': str(tmp)})
                 proc = subprocess.run(['/venv/bin/python', '-W', 'ignore', '-m', 'harness.impl.c06hist', str(tmp / 'in.json'), str(tmp / 'out.json')],
                                       cwd=str(core.ROOT), env=env, capture_output=True, text=True, timeout=600)
                 if proc.returncode or not (tmp / 'out.json').exists():
                     return {'error': f'segment {k} failed: {proc.stderr[-400:]}'}
-                results += json.loads((tmp / 'out.json').read_text())
+                reply = json.loads((tmp / 'out.json').read_text())
+                if isinstance(reply, dict):
+                    results += reply['results']
+                    content = reply['content']
+                else:
+                    results += reply
                 (tmp / 'out.json').unlink()
             return {'results': results}
         finally:
@@ -574,6 +606,8 @@ class C06(core.Prop):
 
     # ---- model side --------------------------------------------------------------------------------------------
     def _coq_history(self, case, obs):
+        if case.get('kind') == 'monolite':
+            return []      # the lazy backend's registration state is not in the cache model: judged by the oracle only
         if 'error' in obs or any('error' in r for r in obs['results']):
             return []
         ids, ops, answers = {}, [], []
@@ -609,8 +643,36 @@ class C06(core.Prop):
         return out
 
     # ---- property-text oracle -----------------------------------------------------------------------------------
+    def _monolite_problems(self, case, obs):
+        if 'error' in obs:
+            return [(None, None, obs['error'])]
+        out, current, versions = [], {}, []
+        bag = lambda rows: sorted((canon_row(r) for r in rows), key=repr)
+        empty = {'A': [], 'C': []}
+        for k, (op, res) in enumerate(zip(case['history'], obs['results'])):
+            if op['op'] == 'mutate':
+                current[op['conn']] = op['data']
+                versions.append(op['data'])
+            if op['op'] != 'read':
+                continue
+            if 'error' in res:
+                out.append((k, None, f"read {k} failed: {res['error']}"))
+                continue
+            stmt = case['statements'][op['stmt']]
+            truth = bag(reference({'statement': stmt, 'data': {**empty, **current[op['conn']]}}))
+            got = bag(res['rows'])
+            if got != truth:
+                # the listed finding: rows of some other (earlier or other feed's) content of the table, possibly for the
+                # statement of the same shape that was read first
+                explained = any(got == bag(reference({'statement': s2, 'data': {**empty, **v}})) for v in versions for s2 in case['statements'])
+                out.append((k, 'C06/lazy-backend-and-cache-shared-across-feeds' if explained else None,
+                            f"read {k} via feed {op['conn']} returned {got[:6]} where its own content denotes {truth[:6]}"))
+        return out
+
     def _history_problems(self, case, obs):
         """(index of the read, signature or None, text) for every read that differs from the storage's content at read time."""
+        if case.get('kind') == 'monolite':
+            return self._monolite_problems(case, obs)
         if 'error' in obs:
             return [(None, None, obs['error'])]
         out = []
